@@ -588,7 +588,7 @@ func (cs *c11Case) term(o *CaseObs) (string, bool, string) {
 
 func runC11(c *Ctx) {
 	im := NewImpl("C11", c.Seed, c.Tier)
-	im.Rule = "scenarios on a real node in a child process with a well-behaved peer B and 1..4 scripted sessions: (A) admission matrix allow-list x per-node cost x cost x announced ID; (B) 12 post-establishment behaviours x cost configurations, then a newcomer under the same ID; (C) 2..3 sessions with equal/different/inadmissible IDs, every order of handshake release x every order of departure; (D) generated configurations and schedules (handshakes, direct/relayed updates, reject messages, hang-ups, other datagrams); (E) racy: 2..4 same-ID handshakes, and handshake+hang-up, released without barriers (oracle only); (F) gate race: up to 400 rounds (4 s) of 6..8 same-ID sessions whose handshakes are released at the same instant through a spin gate inside Recv, survivors proved established by a delivered packet, entry listed exactly once while one is alive and gone after the last ends; (G) late-cancel stress and same-ID meshes; (H) session endings: Recv io.EOF / Recv error / Send error / context cancelled / idle timeout x before handshake / established one-sided / both ways / data flowing: closed and gone from Connections and own row within 0.5 s (idle: limit 2.5 s, above the 1 s receive timeout, + 5 s monitor period), from the routing table within 1 s more, same ID re-admitted at once; non-trivial = at least one handshake released; distinct by configuration and schedule"
+	im.Rule = "scenarios on a real node in a child process with a well-behaved peer B and 1..4 scripted sessions: (A) admission matrix allow-list x per-node cost x cost x announced ID; (B) 12 post-establishment behaviours x cost configurations, then a newcomer under the same ID; (C) 2..3 sessions with equal/different/inadmissible IDs, every order of handshake release x every order of departure; (D) generated configurations and schedules (handshakes, direct/relayed updates, reject messages, hang-ups, other datagrams); (E) racy: 2..4 same-ID handshakes, and handshake+hang-up, released without barriers (oracle only); (F) gate race: up to 400 rounds (4 s) of 6..8 same-ID sessions whose handshakes are released at the same instant through a spin gate inside Recv, survivors proved established by a delivered packet, entry listed exactly once while one is alive and gone after the last ends; (G) late-cancel stress and same-ID meshes; (H) session endings: Recv io.EOF / Recv error / Send error / context cancelled / idle timeout x before handshake / established one-sided / both ways / data flowing: closed and gone from Connections and own row within 0.5 s (idle: limit 2.5 s, above the 1 s receive timeout, + 5 s monitor period), from the routing table within 1 s more, same ID re-admitted at once; (I) held end: an established session ends (Recv io.EOF / Recv error / backend context cancelled) while its protocol loop is kept busy inside a message handler (a firewall rule that does not return / a local service that does not read its socket), 1..2 new sessions announce the same ID meanwhile, the loop is released, 1..2 more announce it afterwards, backends with different costs: at every point at most one session per ID carries traffic (datagram delivered to a local service), each one that does is listed exactly once in Status().Connections and the own cost row at its backend's cost, sessions closed by the node got the type-3 message, exactly one holds the ID at the end, all forgotten after hang-up; final fates also evaluated by the model (end of the old session = LHangup at the release); every verdict confirmed by running the plan alone again; non-trivial = at least one handshake released; distinct by configuration and schedule"
 	cf := &CaseFile{Dir: c.Out, Prop: "C11", Imports: []string{"Model.Admit"}, CaseType: "admit_case", CheckFn: "admit_check", PerShard: 150}
 	cases := genCases(c)
 	specs := make([]CaseSpec, len(cases))
@@ -676,6 +676,7 @@ func runC11(c *Ctx) {
 	gateRace(c, im)
 	lateCancel(c, im)
 	sameIDMesh(c, im)
+	heldEnd(c, im, cf)
 	Must(cf.Write())
 	Must(im.Write(c.Out))
 }
